@@ -462,3 +462,20 @@ V("C19-centroids-from-data-view", ["C19"], "kmeans", "self.centroids_ = k_init(X
 V("C19-wccn-subtract-alias", ["C19"], "whitening", "        self.input_subtract = mu", "        self.input_subtract = X[0]", "stored centre is a view of the first training row")
 V("C19-map-means-alias-stats", ["C19"], "gmm", "        machine.means = statistics.sum_px / thresholded_n[:, None]", "        machine.means = statistics.sum_px\n        machine.means /= thresholded_n[:, None]", "ML means computed in place on the (internal, fresh) statistics' first-order array", kind="benign")
 V("C19-jfa-latent-shared", ["C19"], "factor_analysis", "            latent_z = self.update_z(X=X, y=y, latent_x=latent_x, latent_y=latent_y, latent_z=latent_z, n_acc=n_acc, f_acc=f_acc)\n        return (latent_y[0], latent_z[0])", "            latent_z = self.update_z(X=X, y=y, latent_x=latent_x, latent_y=latent_y, latent_z=latent_z, n_acc=n_acc, f_acc=f_acc)\n        return (latent_y[0], latent_z[0].copy())", "returned offset copied", kind="benign")
+
+# ----------------------------------------------------------------------------- C04
+V("C04-rechunk-removed", ["C04"], "utils", "        if data.ndim > 1:\n            data = data.rechunk({1: -1})\n", "", "revert of fix 4d50b1c: feature-axis chunks are flattened into the block list")
+V("C04-rechunk-rows", ["C04"], "utils", "data = data.rechunk({1: -1})", "data = data.rechunk({0: -1})", "rechunks the sample axis instead of the feature axis")
+V("C04-rechunk-inline", ["C04"], "utils", "        if data.ndim > 1:\n            data = data.rechunk({1: -1})\n        data = data.to_delayed().ravel().tolist()", "        data = (data.rechunk({1: -1}) if data.ndim > 1 else data).to_delayed().ravel().tolist()", "rechunk inlined", kind="benign")
+V("C04-copyback-variances-dropped", ["C04"], "gmm", "                for attr in ['weights', 'means', 'variances']:", "                for attr in ['weights', 'means']:", "trained variances never copied back from the worker's machine")
+V("C04-copyback-explicit", ["C04"], "gmm", "                for attr in ['weights', 'means', 'variances']:\n                    setattr(self, attr, getattr(new_machine, attr))", "                self.weights = new_machine.weights\n                self.means = new_machine.means\n                self.variances = new_machine.variances", "copy-back spelled as three assignments", kind="benign", may_be_undecided=True)
+V("C04-copyback-wrong-source", ["C04"], "gmm", "                    setattr(self, attr, getattr(new_machine, attr))", "                    setattr(self, attr, getattr(self, attr))", "copy-back reads the local machine instead of the computed one")
+V("C04-estep-updates-machine", ["C04", "C19"], "gmm", "    statistics.sum_px = np.vstack(sum_px)\n    statistics.sum_pxx = np.vstack(sum_pxx)\n    return statistics", "    statistics.sum_px = np.vstack(sum_px)\n    statistics.sum_pxx = np.vstack(sum_pxx)\n    machine.means = statistics.sum_px / np.maximum(statistics.n, 1e-10)[:, None]\n    return statistics", "a block task updates the shared machine")
+V("C04-isv-U-not-stored", ["C04", "C12"], "factor_analysis", "                delayed_em_step = dask.delayed(self.m_step)(e_step_output)\n                self._U = dask.compute(delayed_em_step)[0]", "                delayed_em_step = dask.delayed(self.m_step)(e_step_output)\n                dask.compute(delayed_em_step)", "computed U never stored back in the Dask arm of ISV.fit")
+V("C04-numpy-arm-other-kernel", ["C04"], "kmeans", "                stats = [e_step(X, means=self.centroids_)]\n                self.centroids_, self.average_min_distance = m_step(stats, n_samples)", "                stats = accumulate_indices_means_vars(X, self.centroids_)\n                self.centroids_, self.average_min_distance = m_step([e_step(X, means=self.centroids_)], n_samples)", "an extra kernel in the in-memory arm only")
+V("C04-dask-arm-stale-arg", ["C04", "C06"], "kmeans", "                stats = [dask.delayed(e_step)(xx, means=self.centroids_) for xx in X]", "                stats = [dask.delayed(e_step)(xx, means=initial_centroids) for xx in X]", "Dask arm assigns against other centroids than the in-memory arm", may_be_undecided=True)
+V("C04-dask-tasks-filtered", ["C04", "C02"], "gmm", "                stats = [dask.delayed(e_step)(data=xx, machine=self) for xx in X]", "                stats = [dask.delayed(e_step)(data=xx, machine=self) for xx in X[:-1]]", "last block never processed")
+V("C04-dask-partial-reduced", ["C04"], "kmeans", "self.centroids_, self.average_min_distance = dask.compute(dask.delayed(m_step)(stats, n_samples))[0]", "self.centroids_, self.average_min_distance = dask.compute(dask.delayed(m_step)(stats[1:], n_samples))[0]", "first block's statistics dropped before the M-step")
+V("C04-init-arms-crossed", ["C04", "C12"], "factor_analysis", "            f_acc = [dask.delayed(self._sum_f_statistics)(xx, yy, n_classes) for xx, yy in zip(ubm_projected_X, y)]", "            f_acc = [dask.delayed(self._sum_n_statistics)(xx, yy, n_classes) for xx, yy in zip(ubm_projected_X, y)]", "Dask arm accumulates zeroth-order statistics where first-order are needed")
+V("C04-update-y-role-crossed", ["C04", "C12", "C09"], "factor_analysis", "                latent_y = [dask.delayed(self._latent_y_per_class)(X_i=X_i, n_acc_i=n_acc[label], f_acc_i=f_acc[label], VProd=VProd, VTinvSigma=VTinvSigma, latent_x_i=latent_x[label], latent_z_i=latent_z[label]) for label, X_i in enumerate(X)]", "                latent_y = [dask.delayed(self._latent_y_per_class)(X_i=X_i, n_acc_i=n_acc[label], f_acc_i=f_acc[label], VProd=VProd, VTinvSigma=VTinvSigma, latent_x_i=latent_x[label], latent_z_i=latent_z[0]) for label, X_i in enumerate(X)]", "Dask arm uses class 0's offset for every class", may_be_undecided=True)
+V("C04-nsamples-after-split", ["C04", "C06"], "kmeans", "        n_samples = len(X)\n        logger.debug('Transform X array to delayed list')\n        X = array_to_delayed_list(X, input_is_dask)", "        logger.debug('Transform X array to delayed list')\n        X = array_to_delayed_list(X, input_is_dask)\n        n_samples = len(X)", "sample count = number of blocks in the Dask arm")
